@@ -25,6 +25,10 @@ def main():
     wt_mode = "--worktree" in args
     if wt_mode:
         args.remove("--worktree")
+    extra = ""
+    if "--no-minimise" in args:
+        args.remove("--no-minimise")
+        extra = " --no-minimise"
     ids = args or sorted(d for d in os.listdir(os.path.join(VERIF, "seeded"))
                          if os.path.exists(os.path.join(VERIF, "seeded", d, "patch.diff")))
     if not wt_mode and sh(f"git -C {REPO} status --porcelain --untracked-files=no").stdout.strip():
@@ -47,11 +51,13 @@ def main():
             prefix = ""
         if ap.returncode != 0:
             print(f"{mid}: patch does not apply: {ap.stderr.strip()[:200]}"); summary.append((mid, "no-apply")); continue
-        res = {"id": mid, "checks": [], "mode": "scratch worktree" if wt_mode else "/repo"}
+        res = {"id": mid, "checks": [], "mode": "scratch worktree" if wt_mode else "/repo",
+               "verif_commit": sh(f"git -C {VERIF} log --format=%h -1").stdout.strip(),
+               "repo_commit": sh(f"git -C {REPO} log --format=%h -1").stdout.strip()}
         try:
             for p in props:
                 t0 = time.time()
-                cmd = f"cd {VERIF} && {prefix}./check {p} --tier quick --no-evidence" + (f" --runs {runs}" if runs else "")
+                cmd = f"cd {VERIF} && {prefix}./check {p} --tier quick --no-evidence{extra}" + (f" --runs {runs}" if runs else "")
                 r = sh(cmd, timeout=3600)
                 sigs = [l.strip().split("signature: ")[1] for l in r.stdout.splitlines() if "signature: " in l]
                 more = [l.strip() for l in r.stdout.splitlines() if l.strip().startswith("(+")]
